@@ -2,7 +2,7 @@
    Model: model/Yee.v (CPML loop in curlE/curlH, backward_rec = add_interfaces + reverse updates + field reset);
    lemmas: proofs/Yee_pml_loop.v, proofs/Yee_pml_sweep.v *)
 From Coq Require Import List Arith Bool QArith Qcanon.
-From FV Require Import base.Scalar base.Cplx model.Yee model.YeeExec proofs.Yee_reverse proofs.Yee_pml_basic proofs.Yee_pml_sweep.
+From FV Require Import base.Scalar base.Cplx model.Yee model.YeeExec proofs.Yee_reverse proofs.Yee_pml_basic proofs.Yee_pml_sweep proofs.Yee_pml_geometry.
 Import ListNotations.
 
 (* For every scene of the model (any grid, iso/diagonal materials with conductivities such that 1+-f <> 0, 0/1 wall masks, any source
@@ -35,6 +35,35 @@ Theorem C03_geometry_check_sound : forall (K : Fld) (sc : scene K) wrapx wrapy w
 Proof. exact geometry_okb_sound. Qed.
 Print Assumptions C03_geometry_check_sound.
 
+(* ... and it holds for EVERY face-slab configuration: each layer spans the full transverse extent of the box, touches its own face
+   (min side: starts at cell 0; max side: ends at cell n) and lies on a non-wrapping axis - any subset of faces, any thicknesses,
+   edges and corners where layers overlap included.  (This is what boundary_objects_from_config produces.) *)
+Theorem C03_geometry_of_face_slabs : forall (K : Fld) (sc : scene K) wrapx wrapy wrapz,
+  (forall p, In p (pmls K sc) -> face_slab K sc wrapx wrapy wrapz p) -> geometry_ok K sc wrapx wrapy wrapz.
+Proof. exact slab_geometry_ok. Qed.
+Print Assumptions C03_geometry_of_face_slabs.
+
+(* the sweep theorem for face-slab layers, with no geometry hypothesis left *)
+Theorem C03_reverse_sweep_face_slabs : forall (K : Fld) (sc : scene K),
+  (forall p, In p (pmls K sc) -> p_kappa1 K p = true) ->
+  (forall p, In p (pmls K sc) -> forall i j k, in_iface K p i j k = true ->
+       p_aE K p (pml_depth K p i j k) = f0 K /\ p_aH K p (pml_depth K p i j k) = f0 K) ->
+  forall wrapx wrapy wrapz : bool,
+  (wrapx = false -> hix K sc = c0 /\ lox K sc = c0) -> (wrapy = false -> hiy K sc = c0 /\ loy K sc = c0) -> (wrapz = false -> hiz K sc = c0 /\ loz K sc = c0) ->
+  cells_ok K sc -> (forall p, In p (pmls K sc) -> face_slab K sc wrapx wrapy wrapz p) ->
+  forall F0 T, wall_compatible K sc F0 -> psi_zero K sc (psiE F0) -> psi_zero K sc (psiH F0) -> tstep F0 = O ->
+  let rec := fun t => (fE (traj K sc F0 (S t)), fH (traj K sc F0 (S t))) in
+  forall j, (j <= T)%nat ->
+  let R := rsweep K sc rec j (traj K sc F0 T) in
+  tstep R = (T - j)%nat /\
+  agrees K sc (fE R) (fE (traj K sc F0 (T - j))) (inI K sc) /\ agrees K sc (fH R) (fH (traj K sc F0 (T - j))) (inI K sc) /\
+  psiE R = psiE (traj K sc F0 T) /\ psiH R = psiH (traj K sc F0 T).
+Proof.
+  intros K sc HK HA wx wy wz Hx Hy Hz CO SL. apply (reverse_sweep_interior K sc HK HA wx wy wz Hx Hy Hz CO).
+  apply slab_geometry_ok. exact SL.
+Qed.
+Print Assumptions C03_reverse_sweep_face_slabs.
+
 (* frame facts of restoration / reset, and the layer-free case *)
 Theorem C03_restore_writes_interface : forall (K : Fld) (sc : scene K) r f i j k,
   (is_iface K sc i j k = true -> restoreA K sc r f i j k = r i j k) /\
@@ -57,5 +86,7 @@ Definition ex_scene : scene QcF :=
     (q 377 1) (q 1 2) (mkM one3 one3 one3) (mkM one3 one3 one3)
     [slab 1 false 0 3 3 5 0 7; slab 2 true 0 3 0 5 0 2; slab 2 false 0 3 0 5 5 7]
     (fun _ => vzero QcF) (fun _ => vzero QcF).
+Example C03_face_slab_example : forall p, In p (pmls QcF ex_scene) -> face_slab QcF ex_scene true false false p.
+Proof. intros p [<-|[<-|[<-|[]]]]; constructor; cbn; repeat split; try reflexivity; repeat constructor. Qed.
 Example C03_nonvacuous : geometry_ok QcF ex_scene true false false /\ inI QcF ex_scene 1 1 3 = true.
 Proof. split; [apply geometry_okb_sound; vm_compute; reflexivity | vm_compute; reflexivity]. Qed.
